@@ -2,7 +2,6 @@
    Every proof here is re-run by every ./check C03; leaf comparisons are semantic (lra / field), so a harmless
    rewrite of the C++ passes and a change of a guard, a tolerance, a sign or a formula does not. *)
 From Coq Require Import QArith Reals String List Qreals Lra Bool.
-From Interval Require Import Tactic.
 Require Import IPV.C03.Syntax IPV.C03.SymExec IPV.C03.Hetero IPV.C03.Spec IPV.Gen.Gen_C03_model.
 Import ListNotations.
 Open Scope string_scope.
@@ -10,10 +9,13 @@ Open Scope R_scope.
 
 Ltac q2r := unfold Q2R in *; cbn [Qnum Qden] in *.
 
-Lemma ln10_lower : 2302585 / 1000000 < ln 10.
-Proof. interval. Qed.
-Lemma ln10_upper : ln 10 < 2302586 / 1000000.
-Proof. interval. Qed.
+(* ln 10 > 2 from the standard library alone (exp 1 <= 3): all that the bounds below need *)
+Lemma ln10_gt_2 : 2 < ln 10.
+Proof.
+  apply exp_lt_inv. rewrite exp_ln by lra.
+  replace 2 with (1 + 1) by lra. rewrite exp_plus.
+  pose proof exp_le_3 as H3. pose proof (exp_pos 1) as Hp. nra.
+Qed.
 
 Lemma scale_lower : forall f L a, 2 < L -> 0 <= a -> - a <= f * L -> - a <= f.
 Proof.
@@ -50,10 +52,10 @@ Section Tie.
     e "iterations" >= 1 /\
     e "converge" = Q2R c_TRUE /\ e "remove_unstable_phases" = Q2R c_FALSE /\ e "called:error_msg" = 0.
 
-  Lemma row_env_log10 : forall e, row_env e -> 2302585 / 1000000 < e "LOG_10".
+  Lemma row_env_log10 : forall e, row_env e -> 2 < e "LOG_10".
   Proof.
     intros e (_ & HL & _). rewrite HL. unfold c_LOG_10. cbn. rewrite fun1_ln.
-    replace (Q2R (10 # 1)) with 10 by (q2r; lra). apply ln10_lower.
+    replace (Q2R (10 # 1)) with 10 by (q2r; lra). apply ln10_gt_2.
   Qed.
 
   (* ---------------------------------------------------------------- pure phases *)
